@@ -1024,7 +1024,7 @@ def run(ck):
     tabs, insts = c01_tables.dump(dumper)
     ttext, tinfo = c01_tables.coq_text(tabs, insts, names, rows)
     th_failed = ck.coq_make(["theories/X86/X86Denote.vo", "theories/X86/X86DbCheck.vo", "theories/X86/X86Proofs.vo", "theories/X86/X86TablesSpec.vo",
-                             "theories/X86/X86UniqueProofs.vo", "theories/X86/X86JudgeProofs.vo", "theories/X86/X86LengthProofs.vo", "theories/X86/X86Choice.vo", "theories/X86/X86EncProofs.vo", "theories/X86/X86PrefixOrder.vo", "theories/X86/X86Reencode.vo", "theories/X86/X86FrameProofs.vo", "theories/X86/X86Shortest.vo", "theories/X86/X86Leg32.vo"])
+                             "theories/X86/X86UniqueProofs.vo", "theories/X86/X86JudgeProofs.vo", "theories/X86/X86LengthProofs.vo", "theories/X86/X86Choice.vo", "theories/X86/X86EncProofs.vo", "theories/X86/X86PrefixOrder.vo", "theories/X86/X86Reencode.vo", "theories/X86/X86FrameProofs.vo", "theories/X86/X86Shortest.vo", "theories/X86/X86Leg32.vo", "theories/X86/X86StreamProofs.vo"])
     # the instruction-option bits the stream passes to the emitter are those of the working tree's InstOptions enum
     opt_names = ["modmr", "modrm", "vex3", "vex", "evex", "lock", "rep", "repne", "xacquire", "xrelease", "er", "sae", "z", "rex"]
     if tabs.get("inst_options") != [OPT[k] for k in opt_names]:
